@@ -277,14 +277,37 @@ def innermost_writes(prog, chk):
         # argument derives (through deref_mut of the Vec) from .scope_stack
         if _derives_from_field(es, t["args"][0], ".scope_stack"):
             ret_from_last = True
-    chk.ob(
-        len(lm) == 1 and ret_from_last,
-        "A10.vars-innermost",
-        "ensure_scope",
-        es.where(),
-        "ensure_scope returns scope_stack.last_mut() (the innermost scope)",
-        "ensure_scope does not return the last element of scope_stack",
-    )
+    if not lm:
+        # the same element written as `&mut self.scope_stack[self.scope_stack.len() - 1]`
+        from sa import discharge as D_
+
+        for (bb, t, c) in es.call_sites(lambda c: c.decl_path == "std::ops::IndexMut::index_mut"):
+            if not _derives_from_field(es, t["args"][0], ".scope_stack"):
+                continue
+            o = R.origin(es, t["args"][1], carriers={})
+            rv = o[1] if o[0] == "rv" else None
+            if rv is None:
+                pl_ = op_place(t["args"][1])
+                d_ = es.single_def(pl_[0]) if pl_ is not None and not pl_[1] else None
+                if d_ and d_[1] != R.TERM and d_[2]["k"] == "use" and op_place(d_[2]["op"]) is not None and op_place(d_[2]["op"])[1] == (".0",):
+                    d2_ = es.single_def(op_place(d_[2]["op"])[0])
+                    rv = d2_[2] if d2_ and d2_[1] != R.TERM else None
+            if rv is not None and rv.get("k") == "binop" and str(rv.get("op", "")).startswith("Sub") and (rv["b"].get("k") or {}).get("int") == 1 and D_._len_subject(es, rv["a"])[0] == D_.value_key(es, t["args"][0]):
+                lm = [(bb, t, c)]
+                ret_from_last = True
+            elif o[0] == "const":
+                lm = [(bb, t, c)]  # a fixed position: not the innermost scope (violation below)
+        if not lm:
+            chk.undecided("A10.vars-innermost", "ensure_scope", es.where(), "ensure_scope takes the scope neither with last_mut() nor by index: which scope it returns is not read here")
+    if lm:
+        chk.ob(
+            len(lm) == 1 and ret_from_last,
+            "A10.vars-innermost",
+            "ensure_scope",
+            es.where(),
+            "ensure_scope returns scope_stack.last_mut() (the innermost scope)",
+            "ensure_scope does not return the last element of scope_stack",
+        )
 
 
 def _derives_from_field(body, op, field, depth=6):
@@ -416,7 +439,14 @@ def scope_vars_complete(prog, chk):
         scopes = [c["args"][-1] for c in ev.calls if c["name"] == "push" and c["args"] and not A.is_form(c["args"][-1]) and c["args"][-1] is not None and c["args"][-1][0] == "struct" and "vars" in c["args"][-1][1]]
         if len(scopes) == 1 and not ev.incomplete and scopes[0][1]["vars"] is not None:
             got = A.canon(scopes[0][1]["vars"])
-            if re.fullmatch(r"get_attrs\(\$1\)", got):
+            # the whole map handed on through conversions that keep every entry (into another map type, say)
+            core = got
+            for _ in range(6):
+                m_ = re.fullmatch(r"(collect|into_iter|iter|cloned|clone|from|into|to_owned|from_iter|copied)\((.*)\)", core)
+                if not m_:
+                    break
+                core = m_.group(2)
+            if re.fullmatch(r"get_attrs\(\$1\)", core):
                 chk.ok("A10.scope-vars", "push_element:with_vars", b.where(), "the scope pushed for an element has as its variables the element's complete attribute map (get_attrs(), unfiltered)")
                 return
             if "$1" in got and "get_attrs" in got:
